@@ -1,6 +1,8 @@
 #!/usr/bin/env python3
-"""Apply every seeded change to /repo in turn, run the quick check of its property (and extra checks given in
-seeded/<id>/also.txt), undo it, and record which checks catch it.  Writes seeded/RESULTS.md and updates meta.json."""
+"""Apply every seeded change in turn to a scratch worktree of /repo's HEAD (never to /repo itself), run the quick check of its
+property (and extra checks given in seeded/<id>/also.txt) against that worktree with evidence/replays redirected to a scratch
+directory, and record which checks catch it.  Writes seeded/RESULTS.md and updates meta.json.
+usage: tools/mutant_matrix.py [-j N] [seeded ids ...]"""
 import glob
 import json
 import os
@@ -16,16 +18,12 @@ def sh(cmd, **kw):
     return subprocess.run(cmd, shell=True, capture_output=True, text=True, **kw)
 
 
-def main():
-    only = sys.argv[1:]
-    if sh("git -C /repo diff --quiet").returncode != 0:
-        print("REPO DIRTY")
-        return 3
-    rows = []
-    for d in sorted(glob.glob(os.path.join(VERIF, "seeded", "*"))):
+def one(d):
+    import shutil
+    import tempfile
+
+    if True:
         mid = os.path.basename(d)
-        if not os.path.isdir(d) or (only and mid not in only):
-            continue
         patch = os.path.join(d, "patch.diff")
         meta_p = os.path.join(d, "meta.json")
         meta = json.load(open(meta_p)) if os.path.exists(meta_p) else {}
@@ -34,26 +32,45 @@ def main():
         also = os.path.join(d, "also.txt")
         if os.path.exists(also):
             checks += open(also).read().split()
-        if sh("git -C /repo apply --check %s" % patch).returncode != 0:
-            rows.append((mid, prop, "PATCH DOES NOT APPLY", "", 0))
-            continue
-        sh("git -C /repo apply %s" % patch)
+        wt = tempfile.mkdtemp(prefix="mutwt.", dir="/tmp")
+        out = tempfile.mkdtemp(prefix="mutout.", dir="/tmp")
+        os.rmdir(wt)
+        if sh("git -C /repo worktree add --detach %s HEAD -q" % wt).returncode != 0:
+            return (mid, prop, "NO WORKTREE", "", 0)
         try:
+            if sh("git -C %s apply %s" % (wt, patch)).returncode != 0:
+                return (mid, prop, "PATCH DOES NOT APPLY", "", 0)
             res = {}
             for c in checks:
                 t0 = time.time()
-                r = sh("cd %s && timeout 1500 /venv/bin/python run.py %s --tier quick" % (VERIF, c))
+                r = sh("cd %s && VERIF_REPO=%s VERIF_OUT=%s timeout 1500 /venv/bin/python run.py %s --tier quick" % (VERIF, wt, out, c))
                 sigs = re.findall(r"signature=(\{.*?\}) count", r.stdout)
                 res[c] = {"exit": r.returncode, "violations": len(re.findall(r"^VIOLATION", r.stdout, re.M)), "first_signature": sigs[0] if sigs else None,
                           "wall_s": round(time.time() - t0, 1)}
         finally:
-            sh("git -C /repo checkout -- .")
+            sh("git -C /repo worktree remove --force %s" % wt)
+            shutil.rmtree(out, ignore_errors=True)
         caught = [c for c, v in res.items() if v["exit"] == 1]
         meta["detected_by_quick"] = caught
         meta["matrix"] = res
         json.dump(meta, open(meta_p, "w"), indent=1)
-        rows.append((mid, prop, "caught by " + ",".join(caught) if caught else "MISSED", (res[checks[0]]["first_signature"] or "")[:140], res[checks[0]]["wall_s"]))
-        print(rows[-1], flush=True)
+        return (mid, prop, "caught by " + ",".join(caught) if caught else "MISSED", (res[checks[0]]["first_signature"] or "")[:140], res[checks[0]]["wall_s"])
+
+
+def main():
+    from concurrent.futures import ThreadPoolExecutor
+
+    args = sys.argv[1:]
+    jobs = 1
+    if args[:1] == ["-j"]:
+        jobs = int(args[1])
+        args = args[2:]
+    dirs = [d for d in sorted(glob.glob(os.path.join(VERIF, "seeded", "*"))) if os.path.isdir(d) and (not args or os.path.basename(d) in args)]
+    rows = []
+    with ThreadPoolExecutor(jobs) as ex:
+        for r in ex.map(one, dirs):
+            rows.append(r)
+            print(r, flush=True)
     with open(os.path.join(VERIF, "seeded", "RESULTS.md"), "w") as f:
         f.write("# Seeded changes vs quick checks (tools/mutant_matrix.py, repo HEAD %s)\n\n" % sh("git -C /repo rev-parse --short HEAD").stdout.strip())
         f.write("| seeded change | property | result | first signature | wall s |\n|---|---|---|---|---|\n")
